@@ -316,13 +316,15 @@ fn fam_stake(r: &mut Rng) -> Result<(), String> {
 }
 
 /// independent re-computation of the ibc-hooks intermediate account (property C09)
-fn hook_p(native: &str, prefix: &str) -> String {
+fn hook_p(native: &str, prefix: &str) -> String { hook_pc(native, prefix, CHANNEL) }
+
+fn hook_pc(native: &str, prefix: &str, channel: &str) -> String {
     use bech32::ToBase32;
     use sha2::{Digest, Sha256};
     let th = Sha256::digest(b"ibc-wasm-hook-intermediary");
     let mut h = Sha256::new();
     h.update(th);
-    h.update(format!("{CHANNEL}/{native}").as_bytes());
+    h.update(format!("{channel}/{native}").as_bytes());
     bech32::encode(prefix, h.finalize().to_vec().to_base32(), bech32::Variant::Bech32).unwrap()
 }
 
@@ -852,6 +854,7 @@ const TAGS: &[(&str, &str)] = &[
     ("State query", "C15,C16"),
     ("changed storage", "C08,C10,C07"),
     ("ReceiveRewards accepted from", "C08,C09"),
+    ("ReceiveRewards refused (", "C09"),
     ("ReceiveRewards accepted while no LST", "C11"),
     ("ReceiveRewards accepted although the fee", "C11,C16"),
     ("retained fees", "C11,C02"),
@@ -870,7 +873,7 @@ const TAGS: &[(&str, &str)] = &[
     ("reward collector's hook", "C08,C09"),
     ("ReceiveUnstakedTokens refused", "C09"),
     ("Withdraw refused", "C05,C02"),
-    ("Withdraw of", "C05"),
+    ("Withdraw of", "C05,C02"),
     ("second Withdraw", "C05"),
     ("payouts", "C05,C02"),
     ("without a request", "C05,C08"),
@@ -890,10 +893,17 @@ const TAGS: &[(&str, &str)] = &[
     ("accepted by validation", "C14"),
     ("upper-case prefix", "C14"),
     ("UpdateConfig", "C14"),
-    ("recovery accepted although", "C07"),
+    ("recovery accepted although", "C07,C01,C02"),
+    ("not tracked for a reply", "C07,C01"),
+    ("reply", "C07,C01,C02"),
+    ("acknowledgement", "C07,C01,C02"),
+    ("timeout", "C07,C01,C02"),
+    ("after the reply", "C07,C01"),
+    ("still recorded after", "C07"),
+    ("refundable", "C07,C02"),
     ("forced recovery by a non-admin", "C07,C08"),
     ("recovery refused", "C07"),
-    ("recovery sent", "C07,C01,C02"),
+    ("recovery sent", "C07,C01,C02,C03"),
     ("still recorded", "C07"),
     ("not selected was removed", "C07"),
     ("not tracked for a reply", "C07"),
@@ -1007,6 +1017,14 @@ fn fam_config(r: &mut Rng) -> Result<(), String> {
             if c.protocol_chain_config.account_address_prefix != newp || c.protocol_fee_config.treasury_address.as_ref().map(|x| x.to_string()) != Some(b32(newp, 30)) || c.protocol_chain_config.ibc_channel_id != "channel-9"
                 || c.native_chain_config != c0.native_chain_config || c.batch_period != c0.batch_period || c.liquid_stake_token_denom != c0.liquid_stake_token_denom || c.stopped != c0.stopped || !c.monitors.is_empty() {
                 return Err(format!("UpdateConfig (protocol + fee + monitors sections) stored {c:?} from {c0:?}"));
+            }
+            // the cross-chain senders follow the new channel and prefix at once
+            let st = STATE.load(&deps.storage).unwrap();
+            if st.total_liquid_stake_token.u128() != 0 && in_dom(st.total_native_token.u128() + 1000, st.total_liquid_stake_token.u128()) {
+                let old_hook = hook_pc(COLLECTOR, s.pp, CHANNEL);
+                let new_hook = hook_pc(COLLECTOR, newp, "channel-9");
+                if execute(deps.as_mut(), mock_env(), mock_info(&old_hook, &coins(1000, IBC_DENOM)), ExecuteMsg::ReceiveRewards {}).is_ok() { return Err(format!("ReceiveRewards accepted from {old_hook}, the ibc-hooks account of the channel and prefix that UpdateConfig just replaced")); }
+                execute(deps.as_mut(), mock_env(), mock_info(&new_hook, &coins(1000, IBC_DENOM)), ExecuteMsg::ReceiveRewards {}).map_err(|e| format!("ReceiveRewards refused ({e}) for the ibc-hooks account of the newly configured channel and prefix"))?;
             }
         }
         1 => {
@@ -1174,6 +1192,74 @@ fn fam_queries(r: &mut Rng) -> Result<(), String> {
     Ok(())
 }
 
+/// IBC lifecycle: the stake transfer is tracked from reply to acknowledgement (C07, C01, C02)
+fn fam_ibc(r: &mut Rng) -> Result<(), String> {
+    use cosmwasm_std::{Binary, Reply, SubMsgResponse, SubMsgResult};
+    use osmosis_std::types::ibc::applications::transfer::v1::MsgTransferResponse;
+    use staking::contract::{reply, sudo};
+    use staking::msg::{IBCLifecycleComplete, SudoMsg};
+    use staking::state::ibc::{IBCTransfer, PacketLifecycleStatus as PS};
+    use staking::state::{IBC_WAITING_FOR_REPLY, INFLIGHT_PACKETS};
+    let mut s = scenario(r);
+    if s.tl == 0 { s.tn = 0; }
+    let a = addrs(s.pp, s.np);
+    #[allow(non_snake_case, unused_variables)]
+    let (ADMIN, USER, USER2, ORACLE, STAKER, COLLECTOR, NATIVE_USER) = (a.admin.as_str(), a.user.as_str(), a.user2.as_str(), a.oracle.as_str(), a.staker.as_str(), a.collector.as_str(), a.native_user.as_str());
+    let mut deps = init(&s);
+    let amount = 1_000_000u128;
+    let resp = execute(deps.as_mut(), mock_env(), mock_info(USER, &coins(amount, IBC_DENOM)), ExecuteMsg::LiquidStake { mint_to: None, transfer_to_native_chain: None, expected_mint_amount: None }).map_err(|e| format!("set-up: {e}"))?;
+    let id = resp.messages.iter().find(|m| m.id != 0).map(|m| m.id).ok_or("set-up: no sub message")?;
+    let w = IBC_WAITING_FOR_REPLY.may_load(&deps.storage, id).unwrap();
+    if w.as_ref().map(|w| (w.amount.amount.u128(), w.receiver.clone())) != Some((amount, STAKER.to_string())) { return Err(format!("stake transfer is not tracked for a reply: {w:?}")); }
+    let seq = 40 + r.next() % 5;
+    let data = |q: u64| Some(Binary::from(MsgTransferResponse { sequence: q }.encode_to_vec()));
+    // a reply for an unknown id, and a failed submission, must be errors (the whole transaction is then rolled back)
+    let before = dump(&deps.storage);
+    if reply(deps.as_mut(), mock_env(), Reply { id: id + 7, result: SubMsgResult::Ok(SubMsgResponse { events: vec![], data: data(seq) }) }).is_ok() { return Err("reply for an id nobody waits for was accepted".into()); }
+    let failed = if r.next() % 2 == 0 { SubMsgResult::Err("channel closed".into()) } else { SubMsgResult::Ok(SubMsgResponse { events: vec![], data: None }) };
+    if r.next() % 3 == 0 {
+        if reply(deps.as_mut(), mock_env(), Reply { id, result: failed.clone() }).is_ok() { return Err(format!("reply reporting that the transfer could not be submitted ({failed:?}) returned Ok: the operation that requested it is not rolled back")); }
+        if dump(&deps.storage) != before { return Err("refused reply changed storage".into()); }
+    }
+    reply(deps.as_mut(), mock_env(), Reply { id, result: SubMsgResult::Ok(SubMsgResponse { events: vec![], data: data(seq) }) }).map_err(|e| format!("reply of the submitted transfer refused: {e}"))?;
+    let want = IBCTransfer { sequence: seq, amount: Coin::new(amount, IBC_DENOM), receiver: STAKER.to_string(), status: PS::Sent };
+    let got = INFLIGHT_PACKETS.may_load(&deps.storage, seq).unwrap();
+    if got.as_ref() != Some(&want) || IBC_WAITING_FOR_REPLY.may_load(&deps.storage, id).unwrap().is_some() { return Err(format!("after the reply the transfer is recorded as {got:?}, expected {want:?} and no pending reply")); }
+    // in flight: nobody but the admin can re-send it
+    if execute(deps.as_mut(), mock_env(), mock_info(USER, &[]), ExecuteMsg::RecoverPendingIbcTransfers { paginated: None, selected_packets: None, receiver: None }).is_ok() { return Err("recovery accepted although it selects a transfer that is still in flight".into()); }
+    // stray acknowledgements and timeouts change nothing
+    let sudo_ack = |deps: &mut Deps, ch: &str, q: u64, ok: bool| sudo(deps.as_mut(), mock_env(), SudoMsg::IBCLifecycleComplete(IBCLifecycleComplete::IBCAck { channel: ch.into(), sequence: q, ack: "{}".into(), success: ok }));
+    let sudo_to = |deps: &mut Deps, ch: &str, q: u64| sudo(deps.as_mut(), mock_env(), SudoMsg::IBCLifecycleComplete(IBCLifecycleComplete::IBCTimeout { channel: ch.into(), sequence: q }));
+    let before = dump(&deps.storage);
+    let ok = r.next() % 2 == 0;
+    let _ = sudo_ack(&mut deps, "channel-7", seq, ok);
+    if dump(&deps.storage) != before { return Err(format!("acknowledgement (success: {ok}) for another channel changed the record of transfer {seq}")); }
+    let _ = sudo_to(&mut deps, "channel-7", seq);
+    if dump(&deps.storage) != before { return Err(format!("timeout for another channel changed the record of transfer {seq}")); }
+    let _ = sudo_ack(&mut deps, CHANNEL, seq + 100, ok);
+    let _ = sudo_to(&mut deps, CHANNEL, seq + 101);
+    if dump(&deps.storage) != before { return Err("acknowledgement or timeout for an unknown sequence changed storage".into()); }
+    // the real outcome
+    match r.next() % 3 {
+        0 => {
+            sudo_ack(&mut deps, CHANNEL, seq, true).map_err(|e| format!("success acknowledgement refused: {e}"))?;
+            if INFLIGHT_PACKETS.may_load(&deps.storage, seq).unwrap().is_some() { return Err("delivered transfer is still recorded after its success acknowledgement".into()); }
+        }
+        k => {
+            if k == 1 { sudo_ack(&mut deps, CHANNEL, seq, false).map_err(|e| format!("failure acknowledgement refused: {e}"))?; } else { sudo_to(&mut deps, CHANNEL, seq).map_err(|e| format!("timeout refused: {e}"))?; }
+            let st = if k == 1 { PS::AckFailure } else { PS::TimedOut };
+            let got = INFLIGHT_PACKETS.may_load(&deps.storage, seq).unwrap();
+            if got != Some(IBCTransfer { status: st.clone(), ..want.clone() }) { return Err(format!("failed or timed-out transfer is recorded as {got:?}, expected it to stay recorded as refundable ({st:?})")); }
+            let resp = execute(deps.as_mut(), mock_env(), mock_info(USER, &[]), ExecuteMsg::RecoverPendingIbcTransfers { paginated: None, selected_packets: None, receiver: None }).map_err(|e| format!("recovery refused ({e}) for a refundable transfer"))?;
+            let sent = decode(&resp);
+            let tr: Vec<_> = sent.iter().filter_map(|x| if let Sent::Transfer { amount, denom, receiver, .. } = x { Some((amount.clone(), denom.clone(), receiver.clone())) } else { None }).collect();
+            if tr != vec![(amount.to_string(), IBC_DENOM.to_string(), STAKER.to_string())] { return Err(format!("recovery sent {tr:?}, expected the refunded {amount} to the staker")); }
+            if execute(deps.as_mut(), mock_env(), mock_info(USER, &[]), ExecuteMsg::RecoverPendingIbcTransfers { paginated: None, selected_packets: None, receiver: None }).is_ok() { return Err("recovery accepted although it selects nothing to recover (the transfer was already re-sent)".into()); }
+        }
+    }
+    Ok(())
+}
+
 fn run_family(f: &str, r: &mut Rng) -> Result<(), String> {
     match f {
         "stake" => fam_stake(r),
@@ -1185,6 +1271,7 @@ fn run_family(f: &str, r: &mut Rng) -> Result<(), String> {
         "validation" => fam_validation(r),
         "recover" => fam_recover(r),
         "halt" => fam_halt(r),
+        "ibc" => fam_ibc(r),
         "queries" => fam_queries(r),
         "config" => fam_config(r),
         "treasury" => fam_treasury(r),
@@ -1193,7 +1280,7 @@ fn run_family(f: &str, r: &mut Rng) -> Result<(), String> {
     }
 }
 
-const FAMILIES: [&str; 13] = ["queries", "stake", "rewards", "batch", "auth", "ownership", "fee_withdraw", "validation", "recover", "treasury", "treasury_ownership", "halt", "config"];
+const FAMILIES: [&str; 14] = ["queries", "ibc", "stake", "rewards", "batch", "auth", "ownership", "fee_withdraw", "validation", "recover", "treasury", "treasury_ownership", "halt", "config"];
 
 thread_local! { static PANIC_AT: std::cell::RefCell<String> = std::cell::RefCell::new(String::new()); }
 
